@@ -15,12 +15,13 @@ CLAIMED = {
           "Also proved: schedule_independence (two successful runs of the model under ANY two schedules end in the same tree, for projects with pairwise disjoint footprints; schedule_independence_temps extends it to projects with temp directives under the static hypothesis sched_ok_temps), passes with disjoint footprints commute, a first pass reports exactly its .txtpp-backed include/after targets and never reads their outputs. Partial: equality with a one-file-at-a-time build outside the static hypothesis sched_ok_temps rests on the exhaustive sweep. Real interleavings of system calls inside overlapping workers are not modelled. Also proved (FreshFacts): build_result_is_all_fresh - after a successful build every processed source's output equals the text a pass over the FINAL tree produces, so every include saw the complete final bytes of its dependency; ok_runs_same_processed."),
  "C03": C("Theorems: no task completes twice, done/total counters are exact, the number of tasks is bounded by 2*files+dirs, success implies every seen file finished, and txtpp_run terminates with fuel proportional to the number of .txtpp files and directories of the initial tree (txtpp_run_terminates), for every schedule. Tie: the exhaustive graph x schedule sweep with execution-count marker files, aliased and duplicate inputs.",
           "Coq proof (invariant + termination measure) + exhaustive controlled-schedule correspondence", "6 (C03)",
-          "Partial: termination of the child processes themselves is outside the model. Also proved (MoreFacts3): the ERun events of a pass and of a whole successful run are exactly those prescribed per task, in trace order (pass_ok_runs, first_pass_deps_runs, run_commands_legal)."),
+          "Partial: termination of the child processes themselves is outside the model. Also proved (MoreFacts3): the ERun events of a pass and of a whole successful run are exactly those prescribed per task, in trace order (pass_ok_runs, first_pass_deps_runs, run_commands_legal). Exact counts (OnceFacts): in a successful run every seen file has exactly one pass (first, POk) or exactly two (first reporting dependencies, then final POk); a command after the first dependency directive or in a file without dependencies is executed exactly once, one before it exactly twice (commands_exactly_once, commands_permutation); no task completes twice under ANY verdict (trace_nodup_any)."),
  "C04": C("Theorems: a run that reports success delivered no failed task result and finished every seen file (every schedule, every position in the graph); verify accepts iff the bytes are equal. Tie: fault matrix (11 fault kinds x 4 positions x 4 graph shapes x schedules) through the library against the model, and the real binary under /dev/full, RLIMIT_FSIZE and read-only directories.",
           "Coq proof (run-level simulation of the coordinator invariant) + fault-matrix correspondence", "6 (C04)",
           "Partial: OS fault behaviour (ENOSPC at flush, EFBIG) and BufWriter are exercised on the real binary, not modelled."),
  "C05": C("Theorems: at exit every seen file is finished or waiting; a file with no infinite dependency chain (Acc) is finished; the circular-dependency verdict is raised iff some seen file is unfinished, and such a file has an unfinished dependency (so it reaches a cycle). Tie: all digraphs with self-loops on <=3 files x inputs x schedules: verdict, termination, bytes of the acyclic part.",
-          "Coq proof (invariant, induction on Acc) + exhaustive controlled-schedule correspondence", "6 (C05)"),
+          "Coq proof (invariant, induction on Acc) + exhaustive controlled-schedule correspondence", "6 (C05)",
+          "Statically (CycleFacts): cycle_iff_static - in a run without a failing task the circular-dependency error is raised IF AND ONLY IF some file reached from the inputs reaches a cycle of the static dependency graph of the initial tree, under every schedule; every reached file that does not reach a cycle gets its successful last pass; acyclic projects never get the error; the run ends VOk or VErr with the static fuel bound."),
  "C06": C("Theorems: the streaming verifier accepts iff the concatenation of all chunks equals the existing file, for every chunking; a missing output is a mismatch; a verify pass logs no event on the output path and unlogged paths keep their bytes. Tie: build, tamper (flip/insert/delete/truncate/extend/empty/remove, option flip), verify: verdict and bytes+mtime+inode of every output.",
           "Coq proof (induction over chunks; event-log frame) + history correspondence", "6 (C06)",
           "Also proved at pass level: verify_pass_iff (a final verify pass succeeds iff the existing output holds exactly the text an in-memory build produces) and its corollaries for any differing byte / missing file. Whole runs (VerifyRunFacts, FreshFacts): verify_iff_all_fresh - with enough fuel a Verify run succeeds IF AND ONLY IF the inputs resolve and every reached source is acyclic and its output holds exactly its fresh text; hence any stale, missing or altered output of a reached source fails the run under every schedule, and verify after a successful build passes and logs no event on any output (verify_after_build_passes). Static hypotheses: verify_static, temps_private, sched_ok_temps."),
@@ -38,7 +39,7 @@ CLAIMED = {
           "Also proved for whole runs, any mode and schedule (run_events_allowed_legal, run_frame_legal, verify_run_untouched_legal, clean_run_events_legal): every event is on the output or a temp target of a source that was given a pass."),
  "C11": C("Theorems: a name is a source iff its last or second-to-last extension is txtpp; the three documented shapes and dotted stems map to the documented output names; candidates of an output name map back; outputs are sources only for double-txtpp names. Tie: exhaustive name sweep through is_txtpp_file/remove_txtpp, random trees x input lists x recursion x base directory: which outputs exist, verdict.",
           "Coq proof (case analysis on std::path extension semantics) + exhaustive name sweep and tree correspondence", "6 (C11)",
-          "Also proved: every file given a pass is an input, was returned by an earlier scan, or was reported by an earlier first pass (txtpp_run_only_required); clean follows no dependencies. Together with inputs_are_processed / dependencies_are_processed of C03 this is the processed-set statement."),
+          "Also proved: every file given a pass is an input, was returned by an earlier scan, or was reported by an earlier first pass (txtpp_run_only_required); clean follows no dependencies. Together with inputs_are_processed / dependencies_are_processed of C03 this is the processed-set statement. The model's remove_txtpp includes the refusal of fix F8 (a source whose stem is `.` has no output beside it: dot_stem_sources_are_refused_before_anything_is_written); such sources are part of the C11 tree sweep."),
  "C12": C("Theorems (ingredients): lines are free of LF, and free of CR when CR occurs only before LF; tag content is re-joined with the file's ending (replace_line_ending_uniform). Tie: generated projects with independently mixed endings in first line, later lines, includes, command output, temp bodies, tag contents: byte-class scan of every generated file of the implementation.",
           "Coq proof (induction over lines) + byte-class scan correspondence", "6 (C12)",
           "Proved for whole files through the in-memory sink (output_le_uniform) and for temp bodies; First-line sniffing on very long first lines is covered by the scan only. Build sink and whole runs (BuildLeFacts): build_output_le_uniform, temp_files_le_uniform_build, run_outputs_le_uniform (after a successful build every output uses the ending of ITS OWN source's first line, also when it includes outputs with the other ending), under the domain condition D1 (kept counterexample: a lone CR in an included file reaches the output)."),
